@@ -27,7 +27,7 @@ func init() {
 		Doc: "directory store: after IndexInsert/IndexRemove mutate the in-memory index every path to a return passes the save and returns its result; an index replaced by the collector is saved on all paths; the ingest's ‘modified’ result leads to a save guarded only by the read-only setting",
 		Run: runSave})
 	register(&Rule{ID: "SH-DIGESTER", Floor: 6,
-		Doc: "in each upload implementation every assignment of the digester field is paired, in the same function, with an assignment of the writer field to io.MultiWriter(<storage>, <that digester>.Hash()); the commit compares the current digester's digest with the expected digest and its mismatch edge does not reach the rename / map insert; the blob's final name or key is derived from that digester",
+		Doc: "in each upload implementation every assignment of the digester field is paired, in the same function, with an assignment of the writer field to io.MultiWriter(<storage>, <that digester>.Hash()) — storage first, hash last, since MultiWriter stops at the first writer that fails; the commit compares the current digester's digest with the expected digest and its mismatch edge does not reach the rename / map insert; the blob's final name or key is derived from that digester",
 		Run: runDigester})
 }
 
@@ -837,6 +837,37 @@ func runDigester(c *core.Ctx) {
 					c.Fail(key, ds.Pos(), "in %s the digester field is assigned at %s without re-creating the writer as MultiWriter(<storage>, <that digester>.Hash()): later bytes are hashed by the old digester (or not at all) and the digest no longer describes the stored content", c.P.FuncName(fn), c.P.Pos(ds.Pos()))
 				}
 			}
+		}
+		// (1b) order: io.MultiWriter writes to its writers in turn and stops at the first that fails or writes short, so the
+		// storage comes first and the hash last — the hash then never runs ahead of what the storage accepted, and a write
+		// that failed part-way ends in a digest mismatch at the commit instead of a truncated blob under the full digest
+		nOrder := 0
+		for _, fn := range c.P.Funcs("internal/store") {
+			if r.FamilyOfFunc(fn) != fam {
+				continue
+			}
+			an.Calls(fn, func(call ssa.CallInstruction) {
+				mw, ok := call.(*ssa.Call)
+				if !ok || !an.IsFunc(mw, "io", "MultiWriter") || len(mw.Call.Args) == 0 {
+					return
+				}
+				elems, known := variadicElemsOrdered(mw.Call.Args[0])
+				if !known {
+					return
+				}
+				hashAt := -1
+				for i, el := range elems {
+					if hc, _ := an.CallOf(an.Origin(el)); hc != nil && hc.Call.IsInvoke() && hc.Call.Method.Name() == "Hash" {
+						hashAt = i
+					}
+				}
+				if hashAt < 0 {
+					return
+				}
+				nOrder++
+				okO := hashAt == len(elems)-1
+				c.Check(okO, fmt.Sprintf("order:%s#%d", kn(c.P.FuncName(fn)), nOrder), mw.Pos(), "in the writer built at %s the storage precedes the hash: %v — io.MultiWriter stops at the first writer that fails, so with the hash first it has digested bytes the storage never took: a write that fails part-way (disk full, quota) still commits, and a truncated blob is stored under the digest of the full content", c.P.Pos(mw.Pos()), okO)
+			})
 		}
 		// (2) commit: expected-digest comparison and final name
 		fn := e.MethodOf(fam.Upload, "Close")
